@@ -226,6 +226,11 @@ func CheckOtherIndex(st *stor.Stor, ix *schema.Index, ov *index.Overlay,
 					return
 				}
 				fkey := trunc(key)
+				// the key that was checked on output (Ixspec.Trunc(n).Key)
+				// omits trailing empty fields
+				for fkSpec.Encodes() && strings.HasSuffix(fkey, ixkey.Sep) {
+					fkey = fkey[:len(fkey)-len(ixkey.Sep)]
+				}
 				if fkey == "" {
 					return
 				}
